@@ -69,8 +69,9 @@ def safety_id(line_obj):
 def labels_in(lines, pid):
     s = []
     for l in lines:
-        if l.label and l.label.startswith(pid + ".") and l.label not in s:
-            s.append(l.label)
+        for lab in (l.label or "").split(","):
+            if lab.startswith(pid + ".") and lab not in s:
+                s.append(lab)
     return s
 
 
@@ -133,8 +134,9 @@ def check(pid, tier, seed):
             undecided.append(f"{r['unit']}: no obligations generated")
         for d in res["diags"]:
             if d.kind == "label":
-                if d.obligation.startswith(pid + "."):
-                    failed.setdefault(d.obligation, []).append(d)
+                for lab in d.obligation.split(","):
+                    if lab.startswith(pid + "."):
+                        failed.setdefault(lab, []).append(d)
                 # labels of other properties are decided by their own check
             elif d.kind == "safety":
                 rel, ln = d.obligation.rsplit(":", 1)
@@ -295,7 +297,7 @@ def write_evidence(pid, tier, seed, cfg, runs, obligations, failed, assumptions,
     for r in runs:
         labs = labels_in(r["lines"], pid)[:4]
         for lab in labs:
-            txt = [l.text.strip() for l in r["lines"] if l.label == lab and not l.text.strip().startswith("//[")][:6]
+            txt = [l.text.strip() for l in r["lines"] if lab in (l.label or "").split(",") and not l.text.strip().startswith("//[")][:6]
             samples.append({"obligation": lab, "unit": r["unit"], "clause": " ".join(txt)[:400],
                             "status": "failed" if lab in failed else "discharged"})
     if not samples:
